@@ -214,6 +214,29 @@ class Effects:
             return "shared", f"attribute of a shared instance ({self.shared_instance_classes[ci]})"
         return "fresh", f"instance attribute self.{attr}"
 
+    def class_level_container(self, attr):
+        for ci in self.prog.all_classes():
+            ca = ci.class_attrs.get(attr)
+            if ca is None or ca[0] is None:
+                continue
+            val = ca[0]
+            mutable = isinstance(val, (ast.Dict, ast.List, ast.Set, ast.ListComp, ast.DictComp, ast.SetComp)) or (
+                isinstance(val, ast.Call) and isinstance(val.func, ast.Name) and val.func.id in ("set", "list", "dict", "defaultdict", "OrderedDict", "deque"))
+            if not mutable:
+                continue
+            rebound = False
+            for c in [ci] + ci.all_subclasses():
+                for m in c.methods.values():
+                    for n in ast.walk(m.node):
+                        if isinstance(n, (ast.Assign, ast.AnnAssign)) and getattr(n, "value", None) is not None:
+                            ts = n.targets if isinstance(n, ast.Assign) else [n.target]
+                            for t in ts:
+                                if isinstance(t, ast.Attribute) and t.attr == attr and isinstance(t.value, ast.Name) and t.value.id == "self":
+                                    rebound = True
+            if not rebound:
+                return ci
+        return None
+
     def write_sites(self, fi):
         """Yield (node, target expr, kind) for every write in the function (nested defs included)."""
         for n in ast.walk(fi.node):
@@ -253,6 +276,12 @@ class Effects:
                 # the object written is the *container* of the store target
                 container = target.value if kind in ("store", "delete") and isinstance(target, (ast.Attribute, ast.Subscript)) else target
                 cls_, reason = self.classify_expr(fi, container, loc)
+                # whatever the receiver: an attribute that exists only as a class-level container
+                # (never re-bound per instance) is one object shared by all instances
+                if cls_ != "shared" and isinstance(container, ast.Attribute):
+                    owner = self.class_level_container(container.attr)
+                    if owner is not None:
+                        cls_, reason = "shared", f"`{container.attr}` is a class-level container of {owner.name} that is never re-bound per instance: every instance (and every conversion) mutates the same object"
                 if cls_ == "self":
                     # self.attr = v
                     if fi.cls in self.shared_instance_classes and fi.name not in INIT_METHODS:
